@@ -494,7 +494,13 @@ theorem nonZero_case (h : EnvOk env cfg.ctx) (hag : Agrees env cfg.env cfg.asset
     simpa [stk] using this
   · intro w hw
     simp only [satDissat] at hw
-    exact (good_impossible hw).elim
+    have : w = [.pushZero] := by
+      have := hw.1; simp [Sat.push0] at this; first | exact this | exact this.symm
+    subst this
+    rw [disRuns_B hb.2.1]
+    intro rest
+    have := frag_nonZero_dis (ke := cfg.env) h x rest
+    simpa [stk, hag.pushZero] using this
 
 theorem zeroNotEqual_case (h : EnvOk env cfg.ctx) (hc : Corr.castZeroNotEqual cx = some c)
     (ih : Sound env cfg.env cfg.ctx σ cx x (satDissat cfg x)) :
